@@ -2,9 +2,9 @@
 from vf import build, framework as fw
 
 RULE = ("random sequences of put/get/contains/remove/len/iterate-callback (with removal of the current entry, early stop)/"
-        "iterator walks (get_key/get_data/remove/set)/clear/free over 7 flag combinations x {value destructor, none} on 5 key "
+        "iterator walks (get_key/get_data/remove/set)/clear/free over 7 flag combinations x {value destructor, none} on 6 key "
         "populations: random small, bulk-loaded up to ~1100 keys (1-3 table growths), keys sharing one home slot, clusters "
-        "homed on slots 253..255+0..2 that wrap the table end, wrap + random. Every return value/pointer/len, every "
+        "homed on slots 253..255+0..2 that wrap the table end, wrap + random, one probe chain of 100-170 consecutive home slots plus displaced keys (longer than half the table). Every return value/pointer/len, every "
         "destructor call (by value identity), the allocator balance of each op (private key copies) and exactly-once "
         "visiting are compared with a linear dictionary. distinct_nontrivial = sequences with an editing iteration "
         "(hash of op/len sequence)")
@@ -21,7 +21,7 @@ def run(tier):
     if tier == "quick":
         nproc, nseq, maxops = 16, 200, 300
     else:
-        nproc, nseq, maxops = 64, 5000, 500
+        nproc, nseq, maxops = 48, 500, 400
     args = [[s * 7919 + i, nseq, maxops] for i in range(nproc)]
     outs = fw.run_harness_parallel(res, exe, args, timeout=7200, key_prefix="C05")
     res.evaluations = res.counters.get("sequences", 0)
